@@ -15,7 +15,7 @@ TP = "grin_pool::transaction_pool::TransactionPool::"
 
 
 def run(c):
-    CL = P + "process_block::{closure#0}"
+    CL = P + "process_block@txhashset::txhashset::extending"
     c.r1("maturity-after-fork-rewind", CL, P + "rewind_and_apply_fork", sink=P + "verify_coinbase_maturity", via=0)
     c.r1("maturity-before-utxo", CL, P + "verify_coinbase_maturity", sink=P + "validate_utxo", via=0)
     c.r1("maturity-before-apply", CL, P + "verify_coinbase_maturity", sink=P + "apply_block_to_txhashset", via=0)
@@ -33,11 +33,11 @@ def run(c):
     c.r2("maturity-cutoff", UM, ops={"Gt"}, lhs=["call:Iterator::max", "call:Iterator::filter_map"],
          rhs=["call:UTXOView::get_header_by_height", "call:num::saturating_sub", "arg2", "call:global::coinbase_maturity", "re:\\.output_mmr_size$"], err="ImmatureCoinbase",
          bypass=[(r"^discr\(Iterator::max\(", 0)], desc="a coinbase position beyond the output MMR size `maturity` blocks ago is immature")
-    c.r2("maturity-coinbase-stored-features", UM + "::{closure#1}", cond=r"^OutputFeatures::is_coinbase\(arg1\.0\.features\)$", fail_on=False, dominate=False, sink="return",
+    c.r2("maturity-coinbase-stored-features", UM + "@iterator::Iterator::filter_map", cond=r"^OutputFeatures::is_coinbase\(arg1\.0\.features\)$", fail_on=False, dominate=False, sink="return",
          desc="coinbase-ness is taken from the stored output's features") if False else \
-        c.r2_arg("maturity-coinbase-stored-features", UM + "::{closure#1}", "grin_core::core::transaction::OutputFeatures::is_coinbase", 0, must=["arg1.0.features"],
+        c.r2_arg("maturity-coinbase-stored-features", UM + "@iterator::Iterator::filter_map", "grin_core::core::transaction::OutputFeatures::is_coinbase", 0, must=["arg1.0.features"],
                  desc="the coinbase filter tests is_coinbase on the looked-up (stored) output's features")
-    c.r1("maturity-lookup", UM + "::{closure#0}", U + "validate_input", sink="return", via=0, desc="spent outputs are looked up through validate_input (stored output, fork-local view)")
+    c.r1("maturity-lookup", UM + "@iterator::Iterator::map", U + "validate_input", sink="return", via=0, desc="spent outputs are looked up through validate_input (stored output, fork-local view)")
     c.r1("cutoff-header-from-extension", U + "get_header_by_height", U + "get_header_hash", via=0,
          desc="the cutoff header is located through the view's header MMR, not a global height index")
     c.r2_arg("cutoff-header-hash-source", U + "get_header_hash", "re:ReadablePMMR::get_data$|ReadablePMMR>::get_data$", 0, must=["arg0.header_pmmr"])
@@ -76,8 +76,8 @@ def run(c):
         c.r1("pool-kernel-variants-" + sink, AP, TP + "verify_kernel_variants", sink=TP + sink, via=0)
     c.r2("chain-tx-lock-height", CH + "verify_tx_lock_height", ops={"Le"}, lhs=["call:Transaction::lock_height"], rhs=["call:Chain::next_block_height"], fail_on=False, err="TxLockHeight")
     c.r1("chain-maturity-next-height", CH + "verify_coinbase_maturity", CH + "next_block_height", via=0)
-    c.r1("chain-maturity-view", CH + "verify_coinbase_maturity::{closure#0}", U + "verify_coinbase_maturity", via=0)
-    c.r2_arg("chain-maturity-height", CH + "verify_coinbase_maturity::{closure#0}", U + "verify_coinbase_maturity", 2, must=["re:^arg0\\."])
+    c.r1("chain-maturity-view", CH + "verify_coinbase_maturity@txhashset::txhashset::utxo_view", U + "verify_coinbase_maturity", via=0)
+    c.r2_arg("chain-maturity-height", CH + "verify_coinbase_maturity@txhashset::txhashset::utxo_view", U + "verify_coinbase_maturity", 2, must=["re:^arg0\\."])
     c.r2_ret("next-block-height", CH + "next_block_height", must=["call:Chain::head_header", "op:AddWithOverflow", "const:1"])
 
 
